@@ -48,6 +48,7 @@ def parseLayer (s : String) : Option Layer :=
   | "arp" => do pure (.arp (← getHex m "spa") (← getHex m "tpa"))
   | "raw" => some .raw
   | "other" => some .other
+  | "sll" => some .other          -- SLL keeps PDU::matches_response
   | "cacher" => some .cacher
   | _ => none
 
@@ -87,7 +88,13 @@ def specStep (st : Unit) (line : String) : Unit × String :=
         | some r =>
           let o := out.trimAscii.toString
           match demand r b with
-          | .unspec => (st, "unspecified")
+          | .unspec =>
+            -- RFC 8200 §4.5, receiver side: the reserved octet of a fragment header is ignored (KF-C14-5)
+            if demandRFC r b == .accept then
+              (st, if o == "r=1" then "ok accept rfc-view" else s!"violates fragment_reserved_ignored accept got {o}")
+            else if demandRFC r b == .reject then
+              (st, if o == "r=0" then "ok reject rfc-view" else s!"violates fragment_reserved_ignored reject got {o}")
+            else (st, "unspecified")
           | .accept => (st, if o == "r=1" then "ok accept" else s!"violates mirror_accepted got {o}")
           | .reject => (st, if o == "r=0" then "ok reject" else s!"violates stranger_rejected got {o}")
       | _, _ => (st, "bad-op")
